@@ -21,11 +21,27 @@ for d in sorted(claimed):
         pass
     ob = "%s + %s bounded" % (ev.get("obligations", "?"), ev.get("bounded_obligations", 0)) if ev.get("bounded_obligations") else str(ev.get("obligations", "?"))
     npatch = len(glob.glob(os.path.join(HERE, "spec", d, "selftest", "*.diff")))
-    sm = os.path.join(HERE, "seeded", d, "meta.json")
-    seeded = "-"
-    if os.path.exists(sm):
-        det = json.load(open(sm))["detected_by"]
-        seeded = "missed at first, detected after strengthening" if det.startswith("MISSED") else "detected as built"
+    def verdict(path):
+        if not os.path.exists(path):
+            return None
+        det = json.load(open(path))["detected_by"]
+        low = det.lower()
+        if det.startswith("MISSED") and "detected by the owner" in low or det.startswith("MISSED") and "but detected by the c" in low:
+            return "detected by the owning property's check"
+        if ("only after" in low or "obligation added after" in low or det.startswith("NOT reported")) and not det.startswith("MISSED"):
+            return "missed, detected after strengthening"
+        if det.startswith("MISSED, and NOT"):
+            return "missed, not repaired"
+        if det.startswith("MISSED") and ("kept as" in det or "After" in det or "after" in det) and "requested" not in det:
+            return "missed, detected after strengthening"
+        if det.startswith("MISSED"):
+            return "missed"
+        if det.startswith("not by"):
+            return "detected by the owning property's check"
+        return "detected as built"
+    v1 = verdict(os.path.join(HERE, "seeded", d, "meta.json"))
+    v2 = verdict(os.path.join(HERE, "seeded", d + "-r2", "meta.json"))
+    seeded = "; ".join(x for x in (("r1: " + v1) if v1 else None, ("r2: " + v2) if v2 else None) if x) or "-"
     fk = [k for k in known if k["property"] == d]
     fs = ", ".join(("fixed " + k.get("commit", "")) if k["status"] == "fixed" else "known: " + k["id"] for k in fk) or "-"
     print("| %s | %s | %d | %s / %s | %s | %d | %s | %s |" % (d, m.MANIFEST["category"], len(ev.get("functions_under_contract", [])), q, t, ob, npatch, seeded, fs))
